@@ -62,6 +62,8 @@ type respPlan struct {
 	Size    int64
 	Slow    bool // pauses between pieces
 	DelayMs int  // before the status line
+	// Early: answer as soon as the request head is read, drain the request body afterwards
+	Early bool
 	// Hold: do not answer until the channel is closed (or 90 s)
 	Hold chan struct{}
 	// Tunnel: answer 101 (upgrade) / 200 (CONNECT) and then run the two streams
@@ -151,6 +153,26 @@ func (b *rawBackend) serve(c net.Conn) {
 			b.tunnel(c, br, plan)
 			return
 		}
+		if plan != nil && plan.Early {
+			// early answer: the whole response goes out before one byte of the request body is read
+			planMu.Lock()
+			seenBy[tag] = append(seenBy[tag], sr)
+			planMu.Unlock()
+			ok := b.respond(c, req.Method, tag, plan)
+			_ = c.SetReadDeadline(time.Now().Add(120 * time.Second))
+			hsh := sha256.New()
+			n, berr := io.Copy(hsh, req.Body)
+			planMu.Lock()
+			sr.BodyLen, sr.BodySHA = n, hex.EncodeToString(hsh.Sum(nil))
+			if berr != nil {
+				sr.BodyErr = berr.Error()
+			}
+			planMu.Unlock()
+			if !ok || berr != nil {
+				return
+			}
+			continue
+		}
 		hsh := sha256.New()
 		n, berr := io.Copy(hsh, req.Body)
 		sr.BodyLen, sr.BodySHA = n, hex.EncodeToString(hsh.Sum(nil))
@@ -199,6 +221,9 @@ func (b *rawBackend) respond(c net.Conn, method, tag string, p *respPlan) bool {
 	noBody := method == "HEAD" || p.Status == 204 || p.Status == 304 || p.Framing == "none"
 	switch {
 	case p.Status == 204 || p.Status == 304:
+		if p.Framing == "close" {
+			sb.WriteString("Connection: close\r\n") // never close a persistent connection unannounced
+		}
 	case p.Framing == "cl" || p.Framing == "none":
 		sb.WriteString("Content-Length: " + strconv.FormatInt(p.Size, 10) + "\r\n")
 	case p.Framing == "chunked":
@@ -285,10 +310,8 @@ func (b *rawBackend) tunnel(c net.Conn, br *bufio.Reader, p *respPlan) {
 		if err != nil {
 			res.DownErr = err.Error()
 		}
-		// orderly end of the backend's direction
-		if cw, ok := c.(interface{ CloseWrite() error }); ok {
-			_ = cw.CloseWrite()
-		}
+		// no half-close: an upgraded / CONNECT tunnel through a reverse proxy ends as a whole; the
+		// user closes after both directions are complete
 	}()
 	// the user's stream: verify online until the expected size, then expect EOF
 	rd := &progressReader{r: br, c: c, idle: 60 * time.Second}
